@@ -82,8 +82,8 @@ func (prog *Prog) Dump(dest io.Writer) error {
 	for _, v := range prog.constants {
 		// all but string can fit in a fixed buffer
 		if s, ok := v.(string); ok {
-			if 2+len(s) > len(p) {
-				p = make([]byte, 2+len(s))
+			if 1+9+len(s) > len(p) {
+				p = make([]byte, 1+9+len(s))
 			}
 		}
 		n = valueToBytes(p, v)
@@ -114,14 +114,14 @@ func (prog *Prog) Load(src io.Reader) (err error) {
 	var n int
 	var m uint64
 
-	n, _ = r.Read(b[:2])
+	n, _ = io.ReadFull(r, b[:2])
 	if n != 2 {
 		return fmt.Errorf("missing magic header")
 	}
 	if string(b[:2]) != bytecodeMagic {
 		return fmt.Errorf("invalid magic header")
 	}
-	n, _ = r.Read(b[:2])
+	n, _ = io.ReadFull(r, b[:2])
 	if n != 2 {
 		return fmt.Errorf("missing bcode major/minor version")
 	}
@@ -136,11 +136,11 @@ func (prog *Prog) Load(src io.Reader) (err error) {
 	if err != nil {
 		return fmt.Errorf("name size: %w", err)
 	}
-	p, err := r.Peek(int(m))
+	p := make([]byte, m)
+	_, err = io.ReadFull(r, p)
 	if err != nil {
 		return fmt.Errorf("name too short: %w", err)
 	}
-	r.Discard(int(m))
 	prog.name = string(p)
 
 	m, err = uvarintFromBuf(r)
